@@ -121,7 +121,11 @@ func c09BLS(t *rapid.T, ev *evProp) {
 	msg := genMsg(t, 300)
 	ctx := fmt.Sprintf("bls %s x=%s |msg|=%d msg=%.30x", c.name, x, len(msg), msg)
 	key := func(w string) string { return "C09/bls/" + c.name + "/" + w }
-	sig, err := sch.Sign(x.S, msg)
+	gmsg, msgIntact := guard(msg)
+	sig, err := sch.Sign(x.S, gmsg)
+	if why := msgIntact(); why != "" {
+		violationOrKnown(t, ev, key("input-overwritten"), "bls Sign wrote into its caller's memory: %s\n%s", why, ctx)
+	}
 	if err != nil {
 		violationOrKnown(t, ev, key("sign"), "Sign failed: %v\n%s", err, ctx)
 		return
